@@ -28,7 +28,7 @@ RULE = (
 )
 ASSUMPTIONS = [
     "Variants are built by surgery on Dataset.values / mask / timepoints (masked and padded positions only); real observations, real ages and the mask on real entries are untouched.",
-    "Bit-exact equality when the tensor shapes are unchanged (fill-only variants); with extra padding the reduction order may change: rtol 1e-5 on terms, statistics and updates, and chain-based results (fit, mean/mode posterior) are only compared for fill-only variants.",
+    "Bit-exact equality when the tensor shapes are unchanged (fill-only variants); with extra padding the reduction order may change: rtol 1e-5 on terms, statistics and updates (plus, for quantities reduced from entries of both signs - attachment terms, the noise variance - the float32 rounding error relative to the summed magnitudes of those entries), and chain-based results (fit, mean/mode posterior) are only compared for fill-only variants.",
     "LeaspyConvergenceError in the reference fit ends the case as rejected input (then the variant must fail the same way).",
 ]
 REQUIRED_CLASSES = {"fill:nan": 25, "fill:inf": 25, "fill:-inf": 20, "fill:1e30": 25, "pad:extra": 120, "down:fit": 50, "down:mstep": 60,
@@ -67,7 +67,10 @@ def make_variant(ds0, data, fill: float, pad: int):
     return ds
 
 
-def cmp(a, b, exact: bool, what: str, rtol=1e-5):
+def cmp(a, b, exact: bool, what: str, rtol=1e-5, mag=0.0):
+    """mag: summed magnitude of the entries the compared quantity is reduced from, when these are of both signs and may
+    cancel (attachment = sum of 0.5 r^2/sigma^2 + log sigma + const; variance = y^2 - 2ym + m^2): with extra padding the
+    reduction order changes and the rounding error is relative to that magnitude, not to the net value."""
     import torch
 
     from leaspy.utils.weighted_tensor import WeightedTensor
@@ -87,7 +90,7 @@ def cmp(a, b, exact: bool, what: str, rtol=1e-5):
     else:
         fin = a.double()[torch.isfinite(a.double())]
         scale = float(fin.abs().max()) if fin.numel() else 0.0
-        if not bool(torch.allclose(a.double(), b.double(), rtol=rtol, atol=rtol * max(scale, 1e-6), equal_nan=True)):
+        if not bool(torch.allclose(a.double(), b.double(), rtol=rtol, atol=rtol * max(scale, 1e-6) + float(mag), equal_nan=True)):
             raise Fail(f"{what}:differs(rtol {rtol})", b.flatten()[:6].tolist(), a.flatten()[:6].tolist())
 
 
@@ -140,12 +143,17 @@ def body(col: Collector, case):
             model.put_data_variables(s1, ds1)
         t0 = ds0.timepoints.shape[1]
         # ---- likelihood terms, model values at real visits
+        mag_att = 0.0
+        if "y" in s0.dag and "noise_std" in s0.dag:
+            w0 = s0["y"].weight
+            ls = float(torch.as_tensor(s0["noise_std"]).double().log().abs().max()) + 1.0
+            mag_att = 1e-5 * float(w0.sum()) * ls  # whole cohort (also bounds each individual's share)
         for name in ("nll_attach_ind", "nll_attach", "nll_regul_ind_sum_ind"):
             if name in s0.dag:
-                cmp(s0[name], s1[name], exact, "terms:" + name)
+                cmp(s0[name], s1[name], exact, "terms:" + name, mag=mag_att if name.startswith("nll_attach") else 0.0)
         for name in ("nll_attach_y_ind", "nll_attach_event_ind"):
             if name in s0.dag:
-                cmp(s0[name], s1[name], exact, "terms:" + name)
+                cmp(s0[name], s1[name], exact, "terms:" + name, mag=mag_att if name == "nll_attach_y_ind" else 0.0)
         visit_real = ds0.mask.to(torch.bool).any(dim=2)
         m0, m1 = s0["model"], s1["model"]
         m0v = (m0.value if hasattr(m0, "value") else m0)[:, :t0]
@@ -182,7 +190,16 @@ def body(col: Collector, case):
                         raise Fail("mstep:convergence-error-depends-on-garbage", b if isinstance(b, str) else "ok", a if isinstance(a, str) else "ok")
                     continue
                 for p in a:
-                    cmp(a[p], b[p], exact, f"mstep:{tag}:{p}")
+                    mag_p = 0.0
+                    if p == "noise_std" and "y" in s0.dag:
+                        # sigma^2 = mean(y^2 - 2ym + m^2) cancels in float32 for tight fits: d(sigma) = d(var) / (2 sigma)
+                        y_ = s0["y"]
+                        w_ = y_.weight.double()
+                        yv_ = torch.where(w_ > 0, y_.value.double(), torch.zeros_like(w_))
+                        mv_ = torch.where(w_ > 0, (m0.value if hasattr(m0, "value") else m0).double(), torch.zeros_like(w_))
+                        S_ = float(((yv_ * yv_).sum() + 2 * (yv_ * mv_).abs().sum() + (mv_ * mv_).sum()) / w_.sum().clamp_min(1))
+                        mag_p = 16 * 1.1920929e-07 * S_ / (2 * max(float(a[p].double().abs().min()), 1e-12))
+                    cmp(a[p], b[p], exact, f"mstep:{tag}:{p}", mag=mag_p)
             for k in res[2]:
                 if res[2][k] is not None:
                     cmp(res[2][k], res[5][k], exact, "statistics:sum:" + k)
